@@ -39,7 +39,7 @@ Theorem generate_sum_n_bits_correct fresh k0 ins basis be c :
   generate_sum_n_bits fresh k0 ins basis be = Ok c ->
   exists b, resolve_basis basis = Ok b /\
     inputs c = ins /\ only_basis (t_of b) c /\
-    (b = AIG -> (length (gates c) + 3 * length (outputs c) <= 8 * length ins)%nat) /\
+    (exists g, length (gates c) = (length ins + g)%nat /\ nbits_bound b g (length (outputs c)) (length ins)) /\
     forall asg bs, assigns asg ins bs ->
       exists rv, bvals c asg (outputs c) rv /\ decode be rv = ones bs.
 Proof.
@@ -48,7 +48,7 @@ Proof.
   apply add_sum_n_bits_correct in Hr as (b & Hb & Hx & I1 & _ & (g & A & Bd) & V). cbn [bc] in *.
   destruct (only_basis_intro _ _ _ _ _ _ H0' A G) as (OB & Lg).
   exists b. split; [exact Hb|]. split; [congruence|]. split; [exact OB|]. split.
-  - intros E. specialize (Bd E). rewrite Lg, O. lia.
+  - exists g. split; [exact Lg|]. rewrite O. exact Bd.
   - intros asg bs Ha. destruct (V _ (ext_refl _) asg bs) as (rv & Vr & E).
     { eapply bvals_ext; [exact Hx|apply V0, Ha]. }
     exists rv. rewrite O. split; [eapply bvals_gates_eq; [symmetry; exact G|exact Vr]|exact E].
